@@ -369,6 +369,13 @@ def prepare(ctx, need_harness=True, need_binary=False, need_model=True, extra_ta
             ctx.axioms = ax
             for p in problems:
                 ctx.broken.append(('audit', p))
+            if ctx.tier == 'thorough':
+                # the toolchain's independent re-checker replays the compiled declarations of the property module
+                t0 = time.time()
+                r = subprocess.run(['lake', 'env', 'leanchecker', f'PlcProofs.Props.{prop}'], cwd=LEAN, capture_output=True, text=True)
+                ctx.notes.append(f'leanchecker PlcProofs.Props.{prop}: rc={r.returncode} {time.time() - t0:.1f}s')
+                if r.returncode != 0:
+                    ctx.broken.append(('leanchecker', (r.stdout + r.stderr)[-400:]))
         lean_files = []
         for root, _, files in os.walk(LEAN):
             if '.lake' in root: continue
